@@ -10,7 +10,7 @@ use crate::authority::{authority_rule, copt, verify_position_authority_interface
 use crate::state_core::{Whirlpool, Position};
 use crate::position_rules::range_valid;
 use crate::handlers_small::{resolve_one_sided_position_ticks, one_sided_spec};
-use crate::swap_handlers::{Context, Account, Program, UncheckedAccount, Mint};
+use crate::swap_handlers::{Context, Account, Program, UncheckedAccount, Mint, Token};
 use crate::anchor_handlers::{Token2022, System, AssociatedToken, burned_by_cpi, position_seeds_shim, collect_rent_for_ticks_in_position, PositionOpened, emit_position_opened, position_opened_emitted, opened_ok, minted_one_and_sealed};
 broadcast use crate::anchor_shim::ax_qmark_anchor;
 //@ tags C18 C04
@@ -74,5 +74,27 @@ pub fn mint_position_token_2022_and_remove_authority<'info>(position: &Account<'
 //@ rewrite /emit!\(PositionOpened \{/ => /emit_position_opened(PositionOpened {/
 //@ rewrite /let position_seeds = \[\s*b"position"\.as_ref\(\),\s*position_mint\.key\.as_ref\(\),\s*&\[ctx\.bumps\.position\],\s*\];/ => /let position_seeds = position_seeds_shim();/
 //@ rewrite /&position_seeds/ => /position_seeds/ 2
+//@ end
+
+// ------------------------------------------------------------------ open_position_with_metadata (plain SPL position token + Metaplex metadata)
+pub struct Metadata {}
+pub mod state { pub struct OpenPositionWithMetadataBumps { pub position: u8, pub metadata: u8 } }
+pub use crate::anchor_handlers::{Sysvar, Rent, ext_required, WhirlpoolExt};
+#[verifier::external_body]
+pub fn mint_position_token_with_metadata_and_remove_authority<'info>(whirlpool: &Account<'info, Whirlpool>, position: &Account<'info, Position>, position_mint: &Account<'info, Mint>,
+    position_token_account: &Account<'info, TokenAccount>, position_metadata_account: &UncheckedAccount<'info>, metadata_update_auth: &UncheckedAccount<'info>, funder: &Signer<'info>,
+    metadata_program: &Program<'info, Metadata>, token_program: &Program<'info, crate::swap_handlers::Token>, system_program: &Program<'info, System>, rent: &Sysvar<'info, Rent>) -> (r: Result<()>)
+    ensures r is Ok ==> minted_one_and_sealed(position_mint.k, position_token_account.k) { unimplemented!() }
+//@ struct instructions/open_position_with_metadata.rs OpenPositionWithMetadata
+//@ constraints instructions/open_position_with_metadata.rs OpenPositionWithMetadata
+/// C18: as open_position (sentinel bound from the pool's sqrt-price, valid range, position names pool and mint, one token minted and sealed), refused on pools
+/// that require token-extension positions
+//@ fn instructions/open_position_with_metadata.rs handler -> r as=open_position_with_metadata_handler canary
+    requires constraints_OpenPositionWithMetadata(old(ctx.accounts)), old(ctx.accounts).whirlpool.data.tick_spacing > 0, price_ok(old(ctx.accounts).whirlpool.data.sqrt_price as int),
+    ensures
+        r is Ok ==> opened_ok(*old(ctx.accounts).whirlpool, old(ctx.accounts).position_mint.k, tick_lower_index, tick_upper_index, final(ctx.accounts).position.data), //# C18
+        r is Ok ==> !ext_required(old(ctx.accounts).whirlpool.data), //# C18
+        r is Ok ==> minted_one_and_sealed(old(ctx.accounts).position_mint.k, old(ctx.accounts).position_token_account.k), //# C18
+//@ rewrite /emit!\(PositionOpened \{/ => /emit_position_opened(PositionOpened {/
 //@ end
 }
